@@ -23,10 +23,11 @@ MANIFEST = {
             "grammar as a datatype of parse trees: for every well-formed tree the visitor yields an object with the same "
             "meaning (comparison, negation, operator, constant, path step, qualifier, grouping); the printed tokens of every "
             "object the visitor yields are the yield of a parse tree that the visitor maps back to the same object (print is a "
-            "fixed point); objects assembled from the public classes with parenthetical nodes where precedence requires them "
-            "print to the yield of a tree with the same meaning; escaped string constants read back to the same string. "
-            "The pinned visitor's NOT handling is a variant parameter with refutation witnesses.  The model is tied to /repo "
-            "on every run by a correspondence run against the real ANTLR parser and visitor.",
+            "fixed point); every object assembled from the public classes that is well grouped (syntactic predicate), printable "
+            "and constructible has a parse tree with exactly its printed tokens which the visitor reads back to an object with the "
+            "same meaning; escaped string constants read back to the same string.  Thirteen deviations of the tree as found are "
+            "variant parameters (detected at run time) with refutation witnesses.  The model is tied to /repo on every run by a "
+            "correspondence run against the real ANTLR parser and visitor.",
     "design_ref": "DESIGN.md 6/C10, Appendix A.6",
     "note": "Trusted: Coq kernel + vm_compute, the hand-written model (compared with the implementation on every run, parse "
             "trees included), the ANTLR parser of stix2patterns (grammar unambiguity is not proved: Appendix A.6), the reading of "
@@ -568,8 +569,14 @@ def check(run):
     run.violations.sort(key=size)
     unl = [v for v in run.violations if v.finding is None][:5]
     shrunk = {id(v): shrink(v) for v in unl}
-    run.violations = [shrunk.get(id(v), v) for v in run.violations]
-    run.violations.sort(key=size)
+    seen_inputs, kept = set(), []
+    for v in [shrunk.get(id(v), v) for v in run.violations]:
+        key = (v.finding, json.dumps(v.replay.get("case", {}).get("text") or v.replay.get("case", {}).get("spec"), sort_keys=True))
+        if v.finding is None and key in seen_inputs:
+            continue
+        seen_inputs.add(key)
+        kept.append(v)
+    run.violations = sorted(kept, key=size)
     run.coverage["oracle_failures_by_class"] = by_class
     # variant flags: the witness of a defective flag must have been reported
     for f in FLAGS:
